@@ -2,6 +2,7 @@ import Hertz.Driver.Core
 import Hertz.Model.Fs
 import Hertz.Spec.Fs
 import Hertz.Gen.Fs
+import Hertz.Driver.C08Seq
 /-!
 Driver side of C08.  Ops (see harness/c08.go):
 
@@ -10,6 +11,7 @@ Driver side of C08.  Ops (see harness/c08.go):
 * `setcr <s> <e> <n>`          → hex(Content-Range) | `PANIC`
 * `fsreq kind a c g method path content range ae rep` → `status cl cr ar enc rawlen same body` | `PANIC`
 * `fstrav kind path`           → `status class`
+* `fsseq accept compress step*` → see `Hertz/Driver/C08Seq.lean` (trees that change between requests)
 
 The spec predicates are evaluated on the implementation's tokens.
 -/
@@ -153,6 +155,7 @@ def handle : Handler
       | _ => false
     pure { out := impl, spec := spec, specNote := "a StaticFS route never serves a file outside its root",
            tag := "fstrav:" ++ kind ++ ":" ++ ":".intercalate impl }
+  | "fsseq" :: rest, impl => C08Seq.handle ("fsseq" :: rest) impl
   | _, _ => none
 
 end Hertz.Driver.C08
